@@ -48,6 +48,7 @@ const (
 	bNilChan
 	bRecvExpr
 	bChanChan
+	bSelectWarm
 	bSleepLoop
 	bTimeAfter
 	nBodies
@@ -57,7 +58,7 @@ var bodyName = [...]string{"loop-tick", "count-loop", "recursion", "closure-loop
 	"nested-call", "make-closure-loop", "send-block", "recv-block", "recv-cond", "recv2", "range-chan",
 	"select-recv-send", "select-default-loop", "select-empty", "ping-pong", "defer-literal", "defer-host",
 	"send-buffered-full", "select-many", "sort-callback", "strings-map-callback", "range-slice-loop", "recv-assign", "recv-in-literal", "panic-recover-loop",
-	"goto-loop", "label-loops", "range-string-loop", "switch-loop", "iface-loop", "select-send-only", "nil-chan", "recv-expr", "chan-chan",
+	"goto-loop", "label-loops", "range-string-loop", "switch-loop", "iface-loop", "select-send-only", "nil-chan", "recv-expr", "chan-chan", "select-warm",
 	"sleep-loop", "time-after-loop"}
 
 // C09Prog is a generated program.
@@ -69,6 +70,7 @@ type C09Prog struct {
 	Init   int // 0 none, 1 package var initialiser, 2 init function, 3 both
 	Sleeps bool
 	Root   int // actor called by main
+	Warm   []int // actors with a select-warm body (sw<id>(true) executes their select once without blocking)
 }
 
 type c09Gen struct {
@@ -84,6 +86,8 @@ type c09Gen struct {
 	needSort    bool
 	needStrings bool
 	allowSleep bool
+	warm       []int
+	selectOnly bool // plain send/receive bodies are replaced by select-warm
 }
 
 func (g *c09Gen) pf(f string, a ...any) { fmt.Fprintf(&g.b, f, a...) }
@@ -105,6 +109,12 @@ func (g *c09Gen) actor(depth int) int {
 		nb = bSleepLoop
 	}
 	body := g.tape.Choose(nb)
+	if g.selectOnly {
+		switch body {
+		case bSendBlock, bRecvBlock, bRecvCond, bRecv2, bPingPong, bSendBuffered, bRecvAssign, bRecvInLiteral, bNilChan, bRecvExpr, bChanChan:
+			body = bSelectWarm
+		}
+	}
 	g.bodies = append(g.bodies, body)
 	g.bodyOf[id] = body
 	g.desc = append(g.desc, fmt.Sprintf("a%d:%s", id, bodyName[body]))
@@ -268,6 +278,12 @@ func (g *c09Gen) actor(depth int) int {
 		}
 	case bChanChan:
 		p("\tcc := make(chan chan int)\n\tc := <-cc\n\tc <- 1\n\thost.Tick(%d)\n", 900+id)
+	case bSelectWarm:
+		// a select statement which an earlier evaluation of the session may have
+		// executed already, without blocking (sw<id>(true)); here it blocks
+		fmt.Fprintf(&g.decl, "func sw%d(ready bool) {\n\tc1 := make(chan int, 1)\n\tvar c2 chan int\n\tif ready {\n\t\tc1 <- 1\n\t}\n\tselect {\n\tcase v := <-c1:\n\t\thost.Tick(960 + v*0)\n\tcase c2 <- 1:\n\t\thost.Tick(%d)\n\t}\n}\n\n", id, 900+id)
+		g.warm = append(g.warm, id)
+		p("\tsw%d(false)\n\thost.Tick(%d)\n", id, 900+id)
 	case bTimeAfter:
 		g.sleeps = true
 		p("\tc := make(chan int)\n\tfor {\n\t\tselect {\n\t\tcase <-time.After(%d * time.Millisecond):\n\t\t\thost.Tick(%d)\n\t\tcase <-c:\n\t\t\thost.Tick(%d)\n\t\t}\n\t}\n", 1+g.tape.Choose(4), id, 900+id)
@@ -314,7 +330,13 @@ func F(x int) int {
 
 // GenC09Imp is GenC09 with an optional source import.
 func GenC09Imp(tape *Tape, allowSleep, withImport bool) *C09Prog {
-	g := &c09Gen{tape: tape, allowSleep: allowSleep, bodyOf: map[int]int{}}
+	return GenC09Opt(tape, allowSleep, withImport, false)
+}
+
+// GenC09Opt: with selectOnly the program's blocking constructs are select
+// statements and range loops only.
+func GenC09Opt(tape *Tape, allowSleep, withImport, selectOnly bool) *C09Prog {
+	g := &c09Gen{tape: tape, allowSleep: allowSleep, bodyOf: map[int]int{}, selectOnly: selectOnly}
 	initKind := tape.Choose(4)
 	root := g.actor(0)
 	var src strings.Builder
@@ -347,5 +369,5 @@ func GenC09Imp(tape *Tape, allowSleep, withImport bool) *C09Prog {
 	} else {
 		fmt.Fprintf(&src, "func main() {\n\thost.Tick(800)\n\tactor%d()\n\thost.Tick(801)\n}\n", root)
 	}
-	return &C09Prog{Src: src.String(), Desc: fmt.Sprintf("init=%d %s", initKind, strings.Join(g.desc, " ")), Bodies: g.bodies, BodyOf: g.bodyOf, Init: initKind, Sleeps: g.sleeps, Root: root}
+	return &C09Prog{Src: src.String(), Desc: fmt.Sprintf("init=%d %s", initKind, strings.Join(g.desc, " ")), Bodies: g.bodies, BodyOf: g.bodyOf, Init: initKind, Sleeps: g.sleeps, Root: root, Warm: g.warm}
 }
